@@ -936,7 +936,13 @@ def rule_W_UPDATER(ctx, d):
     """a module-local replacement for functools.update_wrapper must leave wrapper.__wrapped__ == the decorated function"""
     # update_wrapper(wrapper, X) ends with wrapper.__wrapped__ = X: X is the decorated function itself, not something derived from it
     for n_ in ast.walk(d.call_fi.node):
-        if isinstance(n_, ast.Call) and unparse(n_.func).split('.')[-1] in ('update_wrapper',) and len(n_.args) >= 2:
+        src_arg = None
+        if isinstance(n_, ast.Call) and unparse(n_.func).split('.')[-1] in ('update_wrapper',):
+            src_arg = n_.args[1] if len(n_.args) >= 2 else next((k.value for k in n_.keywords if k.arg == 'wrapped'), None)
+        elif isinstance(n_, ast.Call) and unparse(n_.func).split('.')[-1] == 'wraps' and d.module.imports.get(unparse(n_.func).split('.')[0], '').startswith('functools'):
+            src_arg = n_.args[0] if n_.args else next((k.value for k in n_.keywords if k.arg == 'wrapped'), None)
+        if src_arg is not None:
+            n_ = ast.copy_location(ast.Call(func=n_.func, args=[None, src_arg], keywords=[]), n_)
             fnarg = d.call_fi.node.args.args[1].arg
             ok = isinstance(n_.args[1], ast.Name) and n_.args[1].id == fnarg
             ctx.ob('W-IFACE', '%s: update_wrapper(wrapper, %s)' % (d.name, fnarg), ok)
@@ -1119,6 +1125,9 @@ def pol_lru(ctx, d, paths):
                         g = [y for y in evs[:j] if y.kind == 'BKGET' and y.val == x.args[0]]
                         if g and g[0].args[0] == N and g[0].args[1] == v:
                             zero = x.args[1] == C(False)
+                        break
+                    if x.kind == 'BRANCH' and decs and (decs[0].extra or {}).get('newval') == x.args[0]:
+                        zero = x.args[1] == C(False)      # the decremented value itself (c = n[k] - 1; n[k] = c; if not c) was tested
                         break
                 ok = len(decs) == 1 and zero
                 why = 'the LRU victim is deleted without its refcount having been decremented once and found to be zero (a key with later uses would be evicted)'
@@ -1408,13 +1417,35 @@ class PlainModel(Model):
             fi = self.module.functions.get(ln)
             if fi is not None and self.engine is not None:
                 return self.engine.inline(fi.node, ln, {}, args, kws, st, node)
+        # a self-contained helper imported from a sibling module of the package (safe.py using _cache._delegate): it refers to nothing but its parameters
+        if f[0] == 'lib' and getattr(self, 'inline_siblings', False) and getattr(self.module, 'repo', None) is not None and self.engine is not None:
+            parts = f[1].lstrip('.').split('.')
+            mine = self.module.rel.split('/')[-1][:-3]
+            if len(parts) >= 2 and parts[-2] in self.module.repo.modules and parts[-2] != mine:
+                ofi = self.module.repo.modules[parts[-2]].functions.get(parts[-1])
+                if ofi is not None:
+                    import builtins as _b
+                    a_ = ofi.node.args
+                    bound = set(x.arg for x in a_.posonlyargs + a_.args + a_.kwonlyargs)
+                    for extra_ in (a_.vararg, a_.kwarg):
+                        if extra_:
+                            bound.add(extra_.arg)
+                    for n_ in ast.walk(ofi.node):
+                        if isinstance(n_, ast.Name) and isinstance(n_.ctx, ast.Store):
+                            bound.add(n_.id)
+                    free = [n_.id for n_ in ast.walk(ofi.node) if isinstance(n_, ast.Name) and isinstance(n_.ctx, ast.Load)
+                            and n_.id not in bound and not hasattr(_b, n_.id)]
+                    if not free:
+                        return self.engine.inline(ofi.node, parts[-1], {}, args, kws, st, node)
         return None
 
 
 def rule_W_NEW(ctx, d, parts=('dispatch', 'forward'), only=None):
     init = d.ci.methods.get('__init__')
     new = d.ci.methods.get('__new__')
-    eng = Engine(PlainModel(d.module), unroll=1)
+    _pm = PlainModel(d.module)
+    _pm.inline_siblings = True       # the maxsize dispatch may live in a helper shared by _cache.py and safe.py
+    eng = Engine(_pm, unroll=1)
     iparams = [a.arg for a in init.node.args.args]
     outs = eng.run_function(init.node, {}, params={iparams[0]: SELF})
     ctx.analysed(init.qual)
